@@ -385,6 +385,41 @@ Fixpoint run_ops {V} (nifti : bool) (im : img V) (ops : list op) : r5 (img V) :=
   | p :: r => im' <~ step_op nifti im p ;; run_ops nifti im' r
   end.
 
+(* ------------------------------------------------------------------ the get_fdata cache *)
+(* An image object also carries the array cached by get_fdata() (_fdata_cache): a converted copy
+   of the data (conv: the dtype conversion, e.g. narrowing to float32), which callers may edit in
+   place and uncache() drops.  as_reoriented and the slicer read self.dataobj, never the cache,
+   and return a NEW image object, which has no cache. *)
+Record cimg (V : Type) := mkC { c_im : img V; c_cache : option (arr V) }.
+Arguments mkC {V}. Arguments c_im {V}. Arguments c_cache {V}.
+Inductive cop (V : Type) :=
+  | CGet (conv : V -> V) (fill : bool)   (* get_fdata(dtype=..., caching='fill' | 'unchanged') *)
+  | CEdit (f : V -> V)                   (* in-place edit of the array get_fdata returned *)
+  | CUncache                             (* img.uncache() *)
+  | COp (p : op).                        (* img = img.slicer[...] / img.as_reoriented(...) *)
+Arguments CGet {V}. Arguments CEdit {V}. Arguments CUncache {V}. Arguments COp {V}.
+Definition amap {V} (f : V -> V) (t : arr V) : arr V := mkArr (a_shape t) (fun j => f (a_get t j)).
+Definition cstep {V} (nifti : bool) (c : cimg V) (x : cop V) : r5 (cimg V) :=
+  match x with
+  | CGet conv fill =>
+      Ok5 (if fill then mkC (c_im c) (Some (match c_cache c with Some t => t | None => amap conv (i_data (c_im c)) end))
+           else c)
+  | CEdit f => Ok5 (mkC (c_im c) (match c_cache c with Some t => Some (amap f t) | None => None end))
+  | CUncache => Ok5 (mkC (c_im c) None)
+  | COp p => im' <~ step_op nifti (c_im c) p ;; Ok5 (mkC im' None)
+  end.
+Fixpoint run_cops {V} (nifti : bool) (c : cimg V) (xs : list (cop V)) : r5 (cimg V) :=
+  match xs with
+  | [] => Ok5 c
+  | x :: r => c' <~ cstep nifti c x ;; run_cops nifti c' r
+  end.
+Fixpoint ops_of {V} (xs : list (cop V)) : list op :=
+  match xs with
+  | [] => []
+  | COp p :: r => p :: ops_of r
+  | _ :: r => ops_of r
+  end.
+
 (* ------------------------------------------------------------------ specifications *)
 (* what the property asks of a reorientation: source index of output index j *)
 Definition src_spec (o : ornt) (shape j : list Z) : list Z :=
@@ -462,3 +497,12 @@ Definition run_concat43 (shape : list Z) (A : mat) : r5 (list Z * mat * list Z) 
 Definition run_enforce_diag (shape : list Z) (o : ornt) (A : mat) : r5 (list Z * mat) :=
   r <~ nifti_as_reoriented (mkImg (id_arr shape) A []) o ;;
   if aff_is_diag (i_aff (snd r)) then Ok5 (a_shape (i_data (snd r)), i_aff (snd r)) else Err5 E5Orient.
+
+(* sequences with cache operations in between; the conversions tag the value so that any use of
+   the cache would show in the sources *)
+Definition run_csequence (nifti : bool) (shape : list Z) (A : mat) (dim : list (option Z))
+    (xs : list (cop (list Z))) : r5 (list Z * mat * list (option Z) * list Z) :=
+  c <~ run_cops nifti (mkC (mkImg (id_arr shape) A dim) None) xs ;;
+  let im := c_im c in
+  Ok5 (a_shape (i_data im), i_aff im, i_dim im, srcs_of shape (i_data im)).
+Definition tag_conv (k : Z) (v : list Z) : list Z := map (fun x => x + k) v.
